@@ -172,6 +172,92 @@ func c12(r *Run) {
 		}, nil, nil, "Store(length, 0) on every path")
 	}
 
+	// ... and the sized reader methods walk the node chain only for a positive count: with Len()==0 a positive count fails
+	// the length test, a non-positive one returns before touching the (recycled, nil) chain
+	{
+		posCount := func(fn *ssa.Function) Atom {
+			isCount := func(v ssa.Value) bool {
+				p, ok := v.(*ssa.Parameter)
+				if !ok || p.Parent() != fn {
+					return false
+				}
+				b, ok := p.Type().Underlying().(*types.Basic)
+				return ok && b.Info()&types.IsInteger != 0
+			}
+			return anyAtom(
+				cmpAtom(isCount, isConstEq(0), func(op token.Token) (bool, bool) {
+					switch op {
+					case token.GTR:
+						return true, true
+					case token.LEQ:
+						return false, true
+					}
+					return false, false
+				}),
+				cmpAtom(isCount, isConstEq(1), func(op token.Token) (bool, bool) {
+					switch op {
+					case token.GEQ:
+						return true, true
+					case token.LSS:
+						return false, true
+					}
+					return false, false
+				}))
+		}
+		var unguarded func(fn *ssa.Function, site ssa.Instruction, depth int) *Witness
+		unguarded = func(fn *ssa.Function, site ssa.Instruction, depth int) *Witness {
+			base := &Search{Fn: fn}
+			wit := guardWitness(fn, site, posCount(fn), base)
+			r.Visited += base.Visited
+			if wit == nil || depth >= 2 || token.IsExported(fn.Name()) {
+				return wit
+			}
+			callers := callSitesOf(w, fn)
+			if len(callers) == 0 {
+				return wit
+			}
+			for _, cs := range callers {
+				if cw := unguarded(cs.Parent(), cs, depth+1); cw != nil {
+					return cw
+				}
+			}
+			return nil
+		}
+		n := 0
+		for _, name := range []string{"Next", "Peek", "Skip", "ReadString", "ReadBinary", "readBinary", "Slice"} {
+			fn := w.Fn("(*UnsafeLinkBuffer)." + name)
+			if fn == nil || len(fn.Params) < 2 {
+				continue
+			}
+			var bad *Witness
+			var at ssa.Instruction
+			cnt := 0
+			forEachIns(fn, func(i ssa.Instruction) {
+				u, ok := i.(*ssa.UnOp)
+				if !ok || u.Op != token.MUL || bad != nil {
+					return
+				}
+				if tn, fld, base, ok := fieldOf(u.X); ok && tn == "UnsafeLinkBuffer" && fld == "read" && base == fn.Params[0] {
+					cnt++
+					if wit := unguarded(fn, i, 0); wit != nil {
+						bad, at = wit, i
+					}
+				}
+			})
+			if cnt == 0 {
+				continue
+			}
+			n++
+			r.obW("C12.R3:chain-walk-needs-positive-count:"+name, "a sized Reader method dereferences the read cursor only after it has seen its count to be positive (n <= 0 returns first): on a closed connection the input buffer is recycled (nil chain, length 0), a positive count then fails the length test and a zero count must not walk the chain - Until's 'return what is left' path calls Next(Len())", fn, at, bad, fmt.Sprintf("%d loads of b.read, all behind n > 0", cnt))
+		}
+		if n < 4 {
+			r.absentf(" C12: only %d sized reader methods walk the chain", n)
+		}
+	}
+
+	// a Flush that is past its activity test still uses the slot and the buffers: the finalizer waits for it before it frees them
+	r.borrow([]string{"C05.R8:stop-flushing-first"}, "C05.R8", "C12.R3", func() { c05(r) })
+
 	// ---- R3 enumerated panic sources ---------------------------------------------------------------
 	nilGuardsFor(r, "C12.R3")
 	{
